@@ -59,7 +59,8 @@ def install(mods):
         @classmethod
         def from_group(cls, group):
             eng = core.engine() if core.active() else None
-            if eng is None or isinstance(eng, core.ReplayEngine):
+            if eng is None or isinstance(eng, core.ReplayEngine) or world.ENV.urandom_hook is None:
+                # concrete world (no symbolic randomness requested): the real Diffie-Hellman
                 return real_dh.from_group(group)
             if isinstance(group, core.SymInt):
                 u = eng.unique_value(group)
